@@ -47,6 +47,13 @@ func c07_10(c *core.Ctx, p *core.Prog) {
 			if cl, ok := isIPCReaderCall(i, "Record"); ok {
 				records = append(records, cl)
 			}
+			// Read() advances the reader unconditionally and overwrites its error: Next() is what keeps a
+			// stream error sticky. A stream whose batch was refused (memory limit, damaged payload) is then
+			// silently revived by the next batch, without the dictionaries of the payloads it skipped
+			if cl, ok := isIPCReaderCall(i, "Read"); ok {
+				n++
+				c.Viol("fn="+core.FuncName(fn)+"|Read", p.Pos(cl.Pos()), core.FuncName(fn), "the IPC reader is advanced with Read(), which (unlike Next()) does not keep a stream error sticky: after a batch was refused — by the memory limit, say — the following batches of that stream are decoded from a reader that skipped payloads, and fail with errors that are not the limit error (or decode against missing dictionaries)")
+			}
 		})
 		for k, rec := range records {
 			n++
@@ -116,5 +123,6 @@ func c07_10(c *core.Ctx, p *core.Prog) {
 }
 
 func init() {
+	register("C14", &core.Rule{ID: "C14.16", Title: "reader protocol: the IPC reader is advanced with Next() (sticky error) and its record taken only after Next()==true: a stream refused by the limit stays refused with the limit error", Mod: core.ModRoot, Floor: 2, Run: c07_10})
 	register("C07", &core.Rule{ID: "C07.10", Title: "reader protocol: Record() only after Next()==true; Retain before any reader is advanced or released again", Mod: core.ModRoot, Floor: 2, Run: c07_10})
 }
